@@ -28,6 +28,7 @@ package inverted
 //@   property C19 C02
 //@   arith bv
 //@   ensures err == nil && string(result0) == v
+//@   ensures result0 != nil
 
 //@ func fromByteSortable[int64]
 //@   property C19 C02
@@ -111,3 +112,30 @@ package inverted
 //@   loop 3 invariant forall(j, 0, len(change.PreviousData), contains(prevSet, change.PreviousData[j]))
 //@   loop 3 invariant forall(j, 0, len(change.CurrentData), contains(currentSet, change.CurrentData[j]))
 //@   loop 3 invariant forall(k, 0, len(changes), changes[k].Id == change.Id && (changes[k].PreviousData != nil ==> !contains(currentSet, *changes[k].PreviousData)) && (changes[k].CurrentData != nil ==> !contains(prevSet, *changes[k].CurrentData)))
+
+// ---- operator to bucket scan (property C02) ----
+// Which part of the sorted key space a search visits, per operator: the key is the sortable
+// image of the query value (order preserving and injective, see above), so "keys from the
+// query key upwards" are the values >= the query value, and so on. The bucket scans themselves
+// (RangeScan / PrefixScan / ForEach visit exactly the keys in range) are trusted contracts.
+//@ func (*IndexInverted).getSetCacheItem
+//@   trusted
+//@   allocates
+//@   modifies inv.setCache
+//@   ensures err == nil ==> result0 != nil
+
+//@ func (*IndexInverted).Search
+//@   property C02
+//@   safety -overflow -nil
+//@   requires unheld(inv.mu)
+//@   ensures unheld(inv.mu)
+//@   ensures operator != "equals" && operator != "notEquals" && operator != "startsWith" && operator != "greaterThan" && operator != "greaterThanOrEquals" && operator != "lessThan" && operator != "lessThanOrEquals" && operator != "inRange" ==> err != nil
+//@   ensures operator == "equals" ==> ncalls(RangeScan) == 0 && ncalls(PrefixScan) == 0 && ncalls(ForEach) == 0
+//@   ensures err == nil && operator == "notEquals" ==> ncalls(ForEach) == 1 && ncalls(RangeScan) == 0 && ncalls(PrefixScan) == 0
+//@   ensures err == nil && operator == "startsWith" ==> ncalls(PrefixScan) == 1 && callarg(PrefixScan, 1, 1) == callres(toByteSortable, 1, 0) && ncalls(RangeScan) == 0 && ncalls(ForEach) == 0
+//@   ensures err == nil && operator == "greaterThan" ==> ncalls(RangeScan) == 1 && callarg(RangeScan, 1, 1) == callres(toByteSortable, 1, 0) && len(callarg(RangeScan, 1, 2)) == 0 && !callarg(RangeScan, 1, 3)
+//@   ensures err == nil && operator == "greaterThanOrEquals" ==> ncalls(RangeScan) == 1 && callarg(RangeScan, 1, 1) == callres(toByteSortable, 1, 0) && len(callarg(RangeScan, 1, 2)) == 0 && callarg(RangeScan, 1, 3)
+//@   ensures err == nil && operator == "lessThan" ==> ncalls(RangeScan) == 1 && callarg(RangeScan, 1, 2) == callres(toByteSortable, 1, 0) && len(callarg(RangeScan, 1, 1)) == 0 && !callarg(RangeScan, 1, 3)
+//@   ensures err == nil && operator == "lessThanOrEquals" ==> ncalls(RangeScan) == 1 && callarg(RangeScan, 1, 2) == callres(toByteSortable, 1, 0) && len(callarg(RangeScan, 1, 1)) == 0 && callarg(RangeScan, 1, 3)
+//@   ensures err == nil && operator == "inRange" ==> ncalls(RangeScan) == 1 && callarg(RangeScan, 1, 1) == callres(toByteSortable, 1, 0) && callarg(RangeScan, 1, 2) == callres(toByteSortable, 2, 0) && callarg(RangeScan, 1, 3)
+//@   ensures err == nil && (operator == "greaterThan" || operator == "greaterThanOrEquals" || operator == "lessThan" || operator == "lessThanOrEquals" || operator == "inRange") ==> ncalls(PrefixScan) == 0 && ncalls(ForEach) == 0
